@@ -37,6 +37,10 @@ fn corpus() -> Vec<CorpusDoc> {
     add("gen:orders.wsdl", verif.join("corpus/orders/orders.wsdl"));
     add("gen:inventory.wsdl", verif.join("corpus/inventory/inventory.wsdl"));
     add("gen:ledger.wsdl", verif.join("corpus/ledger/ledger.wsdl"));
+    // single emitted items larger than 8 KiB / 64 KiB (buffer thresholds): a 2600-value enumeration, a 900-field type,
+    // 100 KB documentation texts
+    add("gen:big-enum.xsd", verif.join("corpus/big/big-enum.xsd"));
+    add("gen:big-type.xsd", verif.join("corpus/big/big-type.xsd"));
     for (n, p) in [
         ("test-data/single-complex.xsd", "zeep-lib/test-data/single-complex.xsd"),
         ("test-data/extensions.xsd", "zeep-lib/test-data/extensions.xsd"),
@@ -180,13 +184,14 @@ struct Plan {
     short: Option<(u64, u64)>,    // pattern, parameter
     flush: Option<(usize, u64)>,  // flush call index, error (the generator calls no flush today; a refactoring may)
     short_once: Option<(usize, u64)>, // at call k only: 0 accept 1 byte, 1 accept len-1, 2 accept half
+    then_interrupted: usize,          // with short_once: the next `n` calls (the retry of the remainder) are interrupted
 }
 
-const KIND_NAMES: [&str; 10] = ["none", "hard", "zero", "at_byte", "interrupted", "short", "short+hard", "interrupted+hard", "flush-fails", "short-once"];
+const KIND_NAMES: [&str; 11] = ["none", "hard", "zero", "at_byte", "interrupted", "short", "short+hard", "interrupted+hard", "flush-fails", "short-once", "short-then-interrupted"];
 
 fn decode_plan(ch: &mut Chooser, n_calls: usize, n_bytes: usize) -> (u64, Plan) {
     let n = n_calls.max(1) as u64;
-    let kind = ch.choose("kind", 10);
+    let kind = ch.choose("kind", 11);
     let mut p = Plan::default();
     match kind {
         1 => {
@@ -232,6 +237,12 @@ fn decode_plan(ch: &mut Chooser, n_calls: usize, n_bytes: usize) -> (u64, Plan) 
             let k = ch.choose("k", n) as usize;
             let how = ch.choose("short_how", 3);
             p.short_once = Some((k, how));
+        }
+        10 => {
+            let k = ch.choose("k", n) as usize;
+            let how = ch.choose("short_how", 3);
+            p.short_once = Some((k, how));
+            p.then_interrupted = 1 + ch.choose("repeat", 3) as usize;
         }
         8 => {
             let j = ch.choose("flush_index", 64) as usize;
@@ -303,6 +314,12 @@ impl io::Write for FaultyWriter {
         self.calls += 1;
         if buf.is_empty() {
             return Ok(0);
+        }
+        if let Some((k, _)) = self.plan.short_once {
+            if self.plan.then_interrupted > 0 && idx > k && idx <= k + self.plan.then_interrupted {
+                self.fired_transient += 1;
+                return Err(io::Error::new(io::ErrorKind::Interrupted, "injected EINTR after a partial write"));
+            }
         }
         if let Some((k, r)) = self.plan.intr {
             if idx >= k && idx < k + r {
@@ -798,6 +815,11 @@ fn build_items(ctx: &Ctx, tier: &str, seed: u64) -> (Vec<Item>, Value) {
                     // a single short write at exactly this call (1 byte / len-1 / half), and repeated interruptions of it
                     for how in 0..3u64 {
                         items.push(Item { doc: d, tape: vec![9, k, how] });
+                        // partial progress, then the retry of the remainder is interrupted once / twice
+                        items.push(Item { doc: d, tape: vec![10, k, how, 0] });
+                        if how == 2 {
+                            items.push(Item { doc: d, tape: vec![10, k, how, 1] });
+                        }
                     }
                     items.push(Item { doc: d, tape: vec![4, k, 1] });
                     items.push(Item { doc: d, tape: vec![4, k, 2] });
@@ -807,7 +829,7 @@ fn build_items(ctx: &Ctx, tier: &str, seed: u64) -> (Vec<Item>, Value) {
                     items.push(Item { doc: d, tape: vec![4, k, 2] });
                 }
             }
-            product.push(json!({"document": name, "sink_calls": n, "call_indices": "all", "error_kinds": errs.len(), "plus": "zero(k), interrupted(k,1) at every k; one rotating further error kind per k; short(p) for 5 patterns; for documents with <= 700 sink calls (thorough: all) also short-once(k, 1 byte | len-1 | half) and interrupted(k,2), interrupted(k,3)"}));
+            product.push(json!({"document": name, "sink_calls": n, "call_indices": "all", "error_kinds": errs.len(), "plus": "zero(k), interrupted(k,1) at every k; one rotating further error kind per k; short(p) for 5 patterns; for documents with <= 700 sink calls (thorough: all) also short-once(k, 1 byte | len-1 | half), the same followed by Interrupted on the retried remainder, and interrupted(k,2), interrupted(k,3)"}));
         } else {
             // very large documents: a prefix, plus seeded indices (thorough: many more)
             let prefix = if thorough { 20_000 } else { 600 };
@@ -848,7 +870,7 @@ fn build_items(ctx: &Ctx, tier: &str, seed: u64) -> (Vec<Item>, Value) {
         let mut ch = Chooser::explore(Rng::derive(seed, "sink-seeded", r));
         // bias towards documents that are cheap to run; large ones get a small share
         let d = weighted[ch.choose("doc", weighted.len() as u64) as usize];
-        let kind = [3u64, 6, 7, 6, 7, 1, 4][ch.choose("kindsel", 7) as usize];
+        let kind = [3u64, 6, 7, 6, 7, 1, 4, 9, 10, 10][ch.choose("kindsel", 10) as usize];
         let (n, nb) = ctx.dims[d];
         let mut tape = vec![kind];
         match kind {
@@ -856,6 +878,8 @@ fn build_items(ctx: &Ctx, tier: &str, seed: u64) -> (Vec<Item>, Value) {
             6 => tape.extend([ch.choose("pattern", 4), ch.choose("param", 1 << 16), ch.choose("k", (nb as u64).min(n as u64 * 8)), ch.choose("err", 18)]),
             7 => tape.extend([ch.choose("k", n as u64), ch.choose("repeat", 3), ch.choose("gap", 16), ch.choose("err", 18)]),
             1 => tape.extend([ch.choose("k", n as u64), ch.choose("err", 18), ch.choose("sticky", 2)]),
+            9 => tape.extend([ch.choose("k", n as u64), ch.choose("short_how", 3)]),
+            10 => tape.extend([ch.choose("k", n as u64), ch.choose("short_how", 3), ch.choose("repeat", 3)]),
             _ => tape.extend([ch.choose("k", n as u64), ch.choose("repeat", 3)]),
         }
         items.push(Item { doc: d, tape });
